@@ -41,14 +41,22 @@ K4_SIG = "c33:unserialisable-parameter"
 UNREC_SIG = "c33:parameter-not-recorded"
 
 
-def canon(v):
-    """canonical text of a JSON-able value (numbers as floats, so 0 == 0.0); None if json rejects it"""
+def dumpable(v):
     try:
         json.dumps(v)
+        return True
     except TypeError:
-        return None
+        return False
 
+
+def canon(v):
+    """canonical text of a parameter value for comparison: numbers as floats (0 == 0.0), numpy
+    scalars / arrays as the python values they stand for"""
     def norm(x):
+        if isinstance(x, np.ndarray):
+            return norm(x.tolist())
+        if isinstance(x, np.generic):
+            return norm(x.item())
         if isinstance(x, bool) or x is None or isinstance(x, str):
             return x
         if isinstance(x, (int, float)):
@@ -62,12 +70,13 @@ def canon(v):
 
 
 class Values:
+    """interned values for the model: 0 = json.dumps rejects it (the call then raises)"""
+
     def __init__(self):
         self.intern = G.Interner()
 
     def __call__(self, v):
-        c = canon(v)
-        return 0 if c is None else self.intern(c)
+        return self.intern(canon(v)) if dumpable(v) else 0
 
 
 def with_provenances(rng, ts):
